@@ -249,7 +249,19 @@ def evaluate(plan, o, prefix="C13"):
             v.append(viol(prefix + ".S4" + sfx, got_ev[0][1] if got_ev else end_ev,
                           "delivered tags %s are not an in-order, duplicate-free selection of the sent tags %s" %
                           (got, all_sent)))
-        elif conns and not (plan.get("config") or {}).get("build_network_map"):
+        elif not (plan.get("config") or {}).get("build_network_map") and any(
+                c["fault"] is not None and c["fault"][2] == "eof" and not c["entry"].get("busy") and
+                [t for t in _complete_tags(c) if t not in got] for c in conns[:-1] if c["closed_at"] is None or True):
+            # an end of stream (unlike a reset) loses nothing that was already sent: every packet the gateway delivered
+            # completely before it must still reach the callback, whatever the callbacks' pace
+            c = next(c for c in conns[:-1] if c["fault"] is not None and c["fault"][2] == "eof" and not c["entry"].get("busy")
+                     and [t for t in _complete_tags(c) if t not in got])
+            if o.end_vt >= c["fault"][1] + 10 + _slack(plan) and not any(
+                    sg[0] == "garbage" and len(sg[1]) > 2 * 65536 for sg in (c["entry"].get("stream") or [])):
+                v.append(viol(prefix + ".S4" + sfx, c["fault"][0], "connection %d ended with end of stream after the gateway had sent tags %s "
+                              "completely; %s never reached the receive callback (received: %s)" %
+                              (c["id"], _complete_tags(c), [t for t in _complete_tags(c) if t not in got], got)))
+        if conns and not (plan.get("config") or {}).get("build_network_map") and not v:
             c = conns[-1]
             if c["fault"] is None and not c["entry"].get("busy") and c["closed_at"] is None \
                     and o.end_vt >= c.get("last_chunk_at", 0) + 10 + _slack(plan):
@@ -289,8 +301,9 @@ def _check_backoff(delays, v, prefix, sfx, fresh=True):
         return
     ds = [d for d, _ in delays]
     for d, ev in delays:
-        if d <= 0:
-            v.append(viol(prefix + ".S3" + sfx, ev, "retry with zero delay after a failed attempt (delays: %s)" % _fmt(ds)))
+        if d < 0.01:
+            v.append(viol(prefix + ".S3" + sfx, ev, "retry %.6f s after a failed attempt: the delay between attempts must never be (practically) "
+                          "zero (delays: %s)" % (d, _fmt(ds))))
             return
         if d > 60.0:
             v.append(viol(prefix + ".S3" + sfx, ev, "retry delay %.1f s exceeds the 60 s cap (delays: %s)" % (d, _fmt(ds))))
